@@ -179,8 +179,11 @@ def worker_main(argv):
     budget = float(os.environ.get('VERIF_WORKER_BUDGET', '0')) or None
     start_idx = int(os.environ.get('VERIF_START_IDX', '0'))
     stop_n = int(os.environ.get('VERIF_STOP_ON_VIOLATION', '0'))
+    only_kind = os.environ.get('VERIF_ONLY_KIND')           # development aid (never set by a registered command): run one kind of case alone
     for idx, case in enumerate(mod.cases(ctx)):
         if idx < start_idx:
+            continue
+        if only_kind and not (isinstance(case, tuple) and case and case[0] == only_kind):
             continue
         if getattr(mod, 'JOURNAL', False):
             journal.seek(0)
